@@ -137,7 +137,7 @@ def decode_and_check(doc, t, typed, eff_key_map, eff_value_map_keys, user_meta, 
         if pidx != exp_parent or not (0 <= pidx < p):
             bad.append(f"entry {p}: parent position {pidx}, expected {exp_parent}")
         did = node.data_id
-        kind = getattr(node, "kind", None)
+        kind = sergen._node_kind(node)
         res.count("writer_entries")
         if did in first:
             q, qkind = first[did]
@@ -404,7 +404,8 @@ def run_reader(case, res):
                 cls, dk = KidTree, "kid"
             model = model_tree(rng, typed, dk)
             doc = encode(model, rng, typed, variant, dk)
-            text = json.dumps(doc)
+            # every second document is written the way most encoders do it: UTF-8 text, non-ASCII characters as they are
+            text = json.dumps(doc, ensure_ascii=case["seed"] % 2 == 0)
             has_ids = '"data_id"' in text or '"D"' in text
             kw = {}
             seen_user = []
@@ -446,7 +447,7 @@ def run_reader(case, res):
                             import zipfile
 
                             with zipfile.ZipFile(pth, "w", compression=zipfile.ZIP_DEFLATED) as zf:
-                                zf.writestr("export-2024.json", text)
+                                zf.writestr("export-2024.json", text.encode("utf8"))
                             res.count("reader_docs_zipped_by_other_means")
                         else:
                             with open(pth, "w", encoding="utf8") as fpw:
@@ -622,6 +623,12 @@ def shards(tier, seed):
     out += [{"name": f"reader{i}", "kind": "reader", "i": i, "count": 80 if tier == "quick" else 40000,
              "budget_s": 100 if tier == "quick" else 3600} for i in range(NSHARDS)]
     out.append({"name": "examples", "kind": "examples", "budget_s": 60})
+    # reader and writer cases once more in a process whose locale encoding is not UTF-8 (C locale, UTF-8 mode and locale
+    # coercion switched off): the document format is UTF-8 whatever the environment says
+    cenv = {"LC_ALL": "C", "LANG": "C", "PYTHONUTF8": "0", "PYTHONCOERCECLOCALE": "0"}
+    out.append({"name": "clocale-reader", "kind": "reader", "i": 900, "count": 60 if tier == "quick" else 3000, "budget_s": 100 if tier == "quick" else 1800, "env": cenv})
+    out.append({"name": "clocale-writer", "kind": "writer", "i": 901, "bound": 0, "rand": 20 if tier == "quick" else 1500, "budget_s": 150 if tier == "quick" else 1800,
+                "env": cenv})
     return out
 
 
@@ -651,7 +658,8 @@ def run_shard(spec, res):
         for c in range(spec["rand"]):
             f = gen.random_forest(rng, rng.randint(5, 25))
             run_case({"kind": "writer", "f": gen.code(f), "flavour": rng.choice(sergen.FLAVOURS), "seed": rng.randrange(10**6),
-                      "km": rng.choice(kms), "vm": rng.choice(vms), "reuse_meta": rng.random() < 0.3, "path": rng.random() < 0.3}, res)
+                      "km": rng.choice(kms), "vm": rng.choice(vms), "reuse_meta": rng.random() < 0.3, "path": rng.random() < (0.8 if spec.get("env") else 0.3),
+                      **({"env": spec["env"]} if spec.get("env") else {})}, res)
             if res.expired():
                 break
     else:
@@ -660,7 +668,7 @@ def run_shard(spec, res):
             typed = rng.random() < 0.5
             variant = {"key_map": rng.choice([False, True, "partial"]), "value_map": rng.random() < 0.5, "refs": rng.random() < 0.7,
                        "plain_str": rng.random() < 0.5, "omit_default_kind": rng.random() < 0.3, "generator": rng.choice(GENERATORS),
-                       "user_meta": rng.random() < 0.5, "user_short_keys": rng.random() < 0.4, "via_path": rng.random() < 0.3, "typed_plain_str": rng.random() < 0.5, "consuming": rng.random() < 0.35, "subclass": rng.random() < 0.35, "nested": rng.random() < 0.4}
-            run_case({"kind": "reader", "seed": rng.randrange(10**9), "typed": typed, "variant": variant}, res)
+                       "user_meta": rng.random() < 0.5, "user_short_keys": rng.random() < 0.4, "via_path": rng.random() < (0.9 if spec.get("env") else 0.3), "typed_plain_str": rng.random() < 0.5, "consuming": rng.random() < 0.35, "subclass": rng.random() < 0.35, "nested": rng.random() < 0.4}
+            run_case({"kind": "reader", "seed": rng.randrange(10**9), "typed": typed, "variant": variant, **({"env": spec["env"]} if spec.get("env") else {})}, res)
             if res.expired():
                 break
